@@ -5,6 +5,7 @@ package main
 // what that credential really proves ("truth").
 
 import (
+	"strings"
 	"crypto"
 	"crypto/hmac"
 	"crypto/sha256"
@@ -324,6 +325,44 @@ func vfCredShapes() []vfCredShape {
 		l := w.vfIssueRoleCert(vfAutoUser, vfKeys.userEC.Public(), "172.16.0.0/12")
 		return l, "172.0.0.9:5555", vfTruth{Kind: "ipcert"}
 	})
+	// the TCP peer decides, not what a header claims (the peer is the loopback
+	// address, which some helpers treat as a trusted proxy)
+	for _, h := range []string{"X-Forwarded-For", "X-Real-Ip", "Forwarded"} {
+		h := h
+		add(vfCredShape{"rolecert-loopback-peer-" + strings.ToLower(h) + "-inside", func(w *vfWorld, q *vfReq) vfTruth {
+			l := w.vfIssueRoleCert(vfAutoUser, vfKeys.userEC.Public(), vfRoleCIDR)
+			q.TLS = w.vfTLSFor(l)
+			q.Remote = "127.0.0.1:5555"
+			if q.Header == nil {
+				q.Header = map[string]string{}
+			}
+			v := strings.Split(vfInsideAddr, ":")[0]
+			if h == "Forwarded" {
+				v = "for=" + v
+			}
+			q.Header[h] = v
+			return vfTruth{Kind: "ipcert"}
+		}})
+	}
+	// IP-restricted certificates issued by the operator's own client CA rather than by this keymaster
+	extca := func(name, cidr, remote string, valid bool) {
+		add(vfCredShape{name, func(w *vfWorld, q *vfReq) vfTruth {
+			_, nb, err := net.ParseCIDR(cidr)
+			vfMust(err)
+			der, err := certgen.GenIPRestrictedX509Cert(vfAutoUser, vfKeys.userEC.Public(), vfKeys.adminCACert, vfKeys.adminCA, []net.IPNet{*nb}, maxRoleRequestingCertDuration, nil, nil)
+			vfMust(err)
+			leaf, err := x509.ParseCertificate(der)
+			vfMust(err)
+			q.TLS = w.vfTLSFor(leaf)
+			q.Remote = remote
+			if valid {
+				return vfTruth{Kind: "ipcert", Valid: true, User: vfAutoUser, Level: AuthTypeIPCertificate, AuthTime: vclock.Now()}
+			}
+			return vfTruth{Kind: "ipcert"}
+		}})
+	}
+	extca("extca-rolecert-inside-automation", vfRoleCIDR, vfInsideAddr, true)
+	extca("extca-rolecert-outside-automation", vfRoleCIDR, vfOutsideAddr, false)
 	cert("rolecert-outside-named-alice", func(w *vfWorld) (*x509.Certificate, string, vfTruth) {
 		l := w.vfIssueRoleCert(target, vfKeys.userEC.Public(), vfRoleCIDR)
 		return l, vfOutsideAddr, vfTruth{Kind: "ipcert"}
@@ -336,6 +375,12 @@ func vfCredShapes() []vfCredShape {
 		return vfAdminCACert(target, vfKeys.userEC.Public()), "", vfTruth{Kind: "othercert"}
 	})
 	return s
+}
+
+// vfDenyList is an operator's deny list: several entries in no particular order
+// (here descending), the one the catalogue uses in the middle.
+func vfDenyList() []string {
+	return []string{"zzzz-some-revoked-key-fingerprint", vfDenyFP(), "0000-another-revoked-key-fingerprint"}
 }
 
 // vfDenyFP is the fingerprint of the key used by the "deny-listed" shape.
